@@ -266,6 +266,9 @@ func fieldPath(info *types.Info, e ast.Expr, roots map[types.Object]bool) (strin
 		return "", false
 	case *ast.StarExpr:
 		return fieldPath(info, x.X, roots)
+	case *ast.IndexExpr:
+		// an element of a root slice (for i := range recv { … recv[i].f … })
+		return fieldPath(info, x.X, roots)
 	case *ast.SelectorExpr:
 		sel := info.Selections[x]
 		if sel == nil || sel.Kind() != types.FieldVal {
